@@ -164,7 +164,7 @@ Definition c_read_octets (sz : size) : creader value :=
       dc* bs <- c_read_n (Z.to_nat (size_lo sz + extra)) c_read_byte; cret (VBytes bs) in
   if size_ext sz then
     dc* b <- c_read_bit;
-    if b then dc* n <- c_read_len; dc* bs <- c_read_n (Z.to_nat n) c_read_byte; cret (VBytes bs)
+    if b then dc* bs <- c_read_frag_auto c_read_byte; cret (VBytes bs)
     else fixed_or_var
   else fixed_or_var.
 
@@ -298,7 +298,7 @@ Section CompositeCost.
             dc* vs <- c_read_n (Z.to_nat (size_lo sz + extra)) (decT elem); cret (VList vs) in
       if size_ext sz then
         dc* b <- c_read_bit;
-        if b then dc* n <- c_read_len; dc* vs <- c_read_n (Z.to_nat n) (decT elem); cret (VList vs)
+        if b then dc* vs <- c_read_frag_auto (decT elem); cret (VList vs)
         else normal
       else normal.
 
